@@ -1480,8 +1480,16 @@ public:
       {
         Eref edgeObject = graphidToE_.at(*currEdge);
         graphidToE_.at(*currEdge) = 00;
+        if (edgeObject == 00)
+          continue;
 
         EToGraphid_.erase(edgeObject);
+        typename std::map<Eref, EdgeIndex>::iterator edgeIndex = EToIndex_.find(edgeObject);
+        if (edgeIndex != EToIndex_.end())
+        {
+          indexToE_.at(edgeIndex->second) = 00;
+          EToIndex_.erase(edgeIndex);
+        }
       }
     }
   }
@@ -1498,8 +1506,16 @@ public:
       {
         Nref nodeObject = graphidToN_.at(*currNode);
         graphidToN_.at(*currNode) = 00;
+        if (nodeObject == 00)
+          continue;
 
         NToGraphid_.erase(nodeObject);
+        typename std::map<Nref, NodeIndex>::iterator nodeIndex = NToIndex_.find(nodeObject);
+        if (nodeIndex != NToIndex_.end())
+        {
+          indexToN_.at(nodeIndex->second) = 00;
+          NToIndex_.erase(nodeIndex);
+        }
       }
     }
   }
